@@ -93,7 +93,7 @@ class C12(E1Check):
         return {"N": 4, "D": 4} if self.tier == "quick" else {"N": 5, "D": 5, "max_states": 60000}
 
     def budget(self):
-        return 600 if self.tier == "quick" else 2400
+        return 600 if self.tier == "quick" else 1200
 
     def worker_init(self):
         super().worker_init()
